@@ -69,6 +69,20 @@ theorem accepted_is_framed (b name : Bytes) (h : readServerName b = .ok (name, t
         simp only [maxSidLen] at hs
         exact ⟨rh, rfl, by omega, hv.symm⟩
 
+/-- `frame` loses nothing: the parts it returns, written out again with their length prefixes
+(`Lemmas.C10.reassemble`: fixed part, 8-bit session-id vector, 16-bit cipher-suite vector, 8-bit compression
+vector, optional 16-bit extension block of `type, 16-bit body` entries), are the message, byte for byte. So
+"exactly framed" means what it says, and with `accepted_is_framed`: every byte string fabio accepts *is* such a
+concatenation. -/
+theorem framed_is_reassembled (b : Bytes) (rh : RawHello) (h : frame b = some rh) :
+    Lemmas.C10.reassemble rh = b :=
+  Lemmas.C10.frame_reassemble b rh h
+
+theorem accepted_is_reassembled (b name : Bytes) (h : readServerName b = .ok (name, true)) :
+    ∃ rh, Lemmas.C10.reassemble rh = b ∧ rh.sessionId.length ≤ 32 ∧ viewExts rh.extensions = .ok name := by
+  obtain ⟨rh, hf, hs, hv⟩ := accepted_is_framed b name h
+  exact ⟨rh, framed_is_reassembled b rh hf, hs, hv⟩
+
 /-! ### Whatever a standard TLS server accepts, fabio reads the same name from -/
 
 /-- For **every byte string**: if the strict reader (RFC 5246/6066/8446: exact framing, session id ≤ 32,
